@@ -120,16 +120,19 @@ impl Indexable for Vec<Value> {
     }
 
     fn get(&self, index: i64) -> Result<Value, Error> {
-        let index: Result<usize, std::num::TryFromIntError> = if index >= 0 {
-            index.try_into()
+        // a negative index counts from the end
+        let i: Option<usize> = if index >= 0 {
+            index.try_into().ok()
         } else {
-            (-index).try_into().map(|i: usize| self.len() - i)
+            index
+                .checked_neg()
+                .and_then(|i| usize::try_from(i).ok())
+                .and_then(|i| self.len().checked_sub(i))
         };
-        let i: usize = index.context("failed to cast index from i64")?;
-        if i >= self.len() {
-            bail!("index out of bounds: {}", i)
+        match i.and_then(|i| <[Value]>::get(self, i)) {
+            Some(v) => Ok(v.clone()),
+            None => bail!("index out of bounds: {}", index),
         }
-        Ok(self[i].clone())
     }
 }
 
